@@ -48,4 +48,67 @@ for name, pre, w in floats:
     out.append('//@   ensures !(f == 8 || f == 9) ==> closureIs(_this.addElementsFunc, "beginArray%s$2") && %s && len(%s) == 2 && %s[0] == \'%%\' && %s[1] == \'v\'' % (name, hdr("@" + pre + "["), FMT, FMT, FMT))
     out.append("//@   xensures wfailed")
     out.append("")
+
+# ---------------------------------------------------------------------------------------------
+# Element writers: the function literals stored in addElementsFunc.
+out.append("// Element writers: element k of a data event is the little-endian image of bytes k*w .. k*w+w-1; it is")
+out.append("// handed to fmt as the Go type that prints it with the right sign (unsigned kinds as uint/uint8/uint64,")
+out.append("// signed kinds as intN), float elements are widened to float64 keeping NaNs signaling or quiet.")
+out.append("//@ spec LE16(d []byte, k uint64) uint64 = uint64(d[2*k]) | uint64(d[2*k+1]) << 8")
+out.append("//@ spec LE32(d []byte, k uint64) uint64 = uint64(d[4*k]) | uint64(d[4*k+1]) << 8 | uint64(d[4*k+2]) << 16 | uint64(d[4*k+3]) << 24")
+out.append("//@ spec LE64(d []byte, k uint64) uint64 = uint64(d[8*k]) | uint64(d[8*k+1]) << 8 | uint64(d[8*k+2]) << 16 | uint64(d[8*k+3]) << 24 | uint64(d[8*k+4]) << 32 | uint64(d[8*k+5]) << 40 | uint64(d[8*k+6]) << 48 | uint64(d[8*k+7]) << 56")
+out.append("//@ spec F32NaN(x uint32) bool = x & 0x7f800000 == 0x7f800000 && x & 0x007fffff != 0")
+out.append("//@ spec F32Elem(v uint64, x uint32) bool = ite(F32NaN(x), isNaN(float64frombits(v)) && ((v & 0x0008000000000000 != 0) == (x & 0x00400000 != 0)), v == bits(float64(float32frombits(x))))")
+out.append("")
+MOD = "arrayEncoderEngine.hasWrittenElements, out, outLen, wfailed, Writer.Column, Writer.Buffer, memall(uint8), alloc, txtInts, txtLastInt, txtLastBase, fmtN, fmtVal, fmtTyp, fltN, fltVal, fltHex"
+def closure(name, n, w, cnt, elemfact, extra_req=""):
+    sh = {1: 0, 2: 1, 4: 2, 8: 3}[w]
+    rs = (" >> %d" % sh) if sh else ""
+    o = []
+    o.append("//@ func (*arrayEncoderEngine).beginArray%s$%d" % (name, n))
+    o.append("//@   requires _this != nil && BufOK(_this.stream) && !wfailed && len(data) & %d == 0 && len(data) <= 0x1000000000 && data.arr != _this.stream.Buffer.arr && allocated(data) && %s <= 0x10000000000%s" % (w - 1, cnt, extra_req))
+    o.append("//@   modifies " + MOD)
+    o.append("//@   ensures !wfailed && %s == old(%s) + uint64(len(data))%s" % (cnt, cnt, rs))
+    o.append("//@   ensures forall k uint64 :: k < uint64(len(data))%s ==> %s" % (rs, elemfact("data", "old(%s) + k" % cnt)))
+    o.append("//@   xensures wfailed")
+    o.append("//@   loop 0 modifies " + MOD)
+    if w == 1:
+        # for _, b := range data: the hidden index of the range loop is called rangeindex (last element done)
+        o.append("//@   loop 0 invariant !wfailed && BufOK(_this.stream) && data.arr != _this.stream.Buffer.arr && 0 - 1 <= rangeindex && rangeindex < len(data) || (len(data) == 0 && rangeindex == 0 - 1)")
+        o.append("//@   loop 0 invariant !wfailed && BufOK(_this.stream) && data.arr != _this.stream.Buffer.arr")
+        o.append("//@   loop 0 invariant forall i int :: 0 <= i && i < len(data) ==> data[i] == old(data[i])")
+        o.append("//@   loop 0 invariant %s == old(%s) + uint64(rangeindex + 1)" % (cnt, cnt))
+        o.append("//@   loop 0 invariant forall k uint64 :: k < uint64(rangeindex + 1) ==> %s" % elemfact("data", "old(%s) + k" % cnt))
+        o.append("//@   loop 0 decreases len(data) - rangeindex")
+    else:
+        o.append("//@   loop 0 invariant !wfailed && BufOK(_this.stream) && data.arr != _this.stream.Buffer.arr && data.arr == data0.arr && len(data) <= len(data0) && data.off + len(data) == data0.off + len(data0) && len(data) & %d == 0" % (w - 1))
+        o.append("//@   loop 0 invariant forall i int :: 0 <= i && i < len(data0) ==> data0[i] == old(data0[i])")
+        o.append("//@   loop 0 invariant %s == old(%s) + uint64(len(data0) - len(data))%s" % (cnt, cnt, rs))
+        o.append("//@   loop 0 invariant forall k uint64 :: k < uint64(len(data0) - len(data))%s ==> %s" % (rs, elemfact("data0", "old(%s) + k" % cnt)))
+        o.append("//@   loop 0 decreases len(data)")
+    o.append("")
+    return o
+LE = {1: "uint64(old(%s[k]))", 2: "old(LE16(%s, k))", 4: "old(LE32(%s, k))", 8: "old(LE64(%s, k))"}
+SEXT = {1: "uint64(int64(int8(%s)))", 2: "uint64(int64(int16(%s)))", 4: "uint64(int64(int32(%s)))", 8: "%s"}
+for name, pre, w, tw in ints:
+    signed = name.startswith("Int")
+    def fact(d, idx, w=w, signed=signed):
+        v = LE[w] % d
+        if signed:
+            v = SEXT[w] % v
+        return "fmtTyp[%s] == %d && fmtVal[%s] == %s" % (idx, 2 if signed else 1, idx, v)
+    out.extend(closure(name, 1, w, "fmtN", fact))
+for name, pre, w in floats:
+    def x32(d, w=w):
+        if w == 2:
+            return "uint32(old(LE16(%s, k))) << 16" % d
+        return "uint32(old(LE32(%s, k)))" % d
+    for n, hexflag in ((1, "fltHex[%s]"), (2, "!fltHex[%s]")):
+        if w == 8:
+            def fact(d, idx, hexflag=hexflag):
+                return (hexflag % idx) + " && fltVal[%s] == old(LE64(%s, k))" % (idx, d)
+        else:
+            def fact(d, idx, hexflag=hexflag, w=w):
+                return (hexflag % idx) + " && F32Elem(fltVal[%s], %s)" % (idx, x32(d))
+        out.extend(closure(name, n, w, "fltN", fact))
 print("\n".join(out))
